@@ -436,13 +436,9 @@ def r2(F, rep):
 
 
 # ------------------------------------------------------------------------------------------------ R3
-def r3(F, rep):
-    rep.rule("C01-R3", "energy and force come from the same set of biases: in colvarmodule::calc_biases(), "
-                       "update_colvar_forces() and the SMP bias loops, update(), get_energy() and communicate_forces() "
-                       "are called inside loops over biases_active(); total_bias_energy reaches proxy->add_energy() on "
-                       "every path of update_colvar_forces(); colvarbias_restraint::update() sets energy and force of "
-                       "variable i from restraint_potential(i) and restraint_force(i) in the same loop; "
-                       "colvarbias::communicate_forces() hands every colvar_forces[i] to its variable")
+def bias_loops(F, rep, rid):
+    """update(), get_energy() and communicate_forces() of biases are called (serial and threaded loops alike) only in
+    loops over biases_active().  Shared with C12-R8."""
     want = {"update": 0, "get_energy": 0, "communicate_forces": 0}
     for f in F.funcs.values():
         if "/src/" not in f.file:
@@ -468,11 +464,21 @@ def r3(F, rep):
                 rng = " ".join(X.re_strip(X.key(h, f)) for h in hdr)
             ok = "biases_active()" in rng and ".biases." not in rng and "this.biases" not in rng.replace("biases_active", "")
             want[nm] += 1
-            rep.add("C01-R3", "%s|%s" % (f.q, nm), f.loc(c), "%s: bias->%s() is called in a loop over %s" % (
+            rep.add(rid, "%s|%s" % (f.q, nm), f.loc(c), "%s: bias->%s() is called in a loop over %s" % (
                 f.q, nm, "biases_active()" if ok else (rng[:120] or "NO LOOP")), ok,
                 detail="energy and forces would be collected from different sets of biases", func=f.q)
     if min(want.values()) < 1:
         raise AnalysisBroken("bias loops not found: %s" % want)
+
+
+def r3(F, rep):
+    rep.rule("C01-R3", "energy and force come from the same set of biases: in colvarmodule::calc_biases(), "
+                       "update_colvar_forces() and the SMP bias loops, update(), get_energy() and communicate_forces() "
+                       "are called inside loops over biases_active(); total_bias_energy reaches proxy->add_energy() on "
+                       "every path of update_colvar_forces(); colvarbias_restraint::update() sets energy and force of "
+                       "variable i from restraint_potential(i) and restraint_force(i) in the same loop; "
+                       "colvarbias::communicate_forces() hands every colvar_forces[i] to its variable")
+    bias_loops(F, rep, "C01-R3")
     f = F.one("colvarmodule::update_colvar_forces")
     adds = [c for c in X.calls(f) if X.callee_name(c) == "add_energy" and X.call_args(c) and "total_bias_energy" in X.key(X.call_args(c)[0], f)]
     if not adds:
